@@ -135,7 +135,17 @@ def run_take(wl, path, mode, sched, seed=0, write_policy=None):
         else:
             pending = Snapshot.async_take(path, st, replicated=repl)
             world.event("async_take_returned")
-            pending.wait()
+            try:
+                pending.wait()
+            except Exception:
+                # an error handler reports the failure; a later "make sure the last checkpoint finished" waits again on the
+                # same handle: it must not report success now
+                try:
+                    pending.wait()
+                    world.event("second_wait_returned")
+                except Exception:
+                    pass
+                raise
         world.event("returned")
         try:
             Snapshot(path).metadata
